@@ -141,7 +141,7 @@ func (p *Parser) parseComparisonExpression() (ast.Expression, error) {
 				fmt.Sprintf("failed to parse BETWEEN lower bound: %v", err),
 				p.currentLocation(),
 				p.currentToken.Literal,
-			)
+			).WithCause(err)
 		}
 
 		// Expect AND keyword
@@ -157,7 +157,7 @@ func (p *Parser) parseComparisonExpression() (ast.Expression, error) {
 				fmt.Sprintf("failed to parse BETWEEN upper bound: %v", err),
 				p.currentLocation(),
 				p.currentToken.Literal,
-			)
+			).WithCause(err)
 		}
 
 		return &ast.BetweenExpression{
@@ -180,7 +180,7 @@ func (p *Parser) parseComparisonExpression() (ast.Expression, error) {
 				fmt.Sprintf("failed to parse LIKE pattern: %v", err),
 				p.currentLocation(),
 				p.currentToken.Literal,
-			)
+			).WithCause(err)
 		}
 
 		return &ast.BinaryExpression{
@@ -201,7 +201,7 @@ func (p *Parser) parseComparisonExpression() (ast.Expression, error) {
 				fmt.Sprintf("failed to parse REGEXP pattern: %v", err),
 				p.currentLocation(),
 				p.currentToken.Literal,
-			)
+			).WithCause(err)
 		}
 		return &ast.BinaryExpression{
 			Left:     left,
@@ -230,7 +230,7 @@ func (p *Parser) parseComparisonExpression() (ast.Expression, error) {
 					fmt.Sprintf("failed to parse IN subquery: %v", err),
 					p.currentLocation(),
 					p.currentToken.Literal,
-				)
+				).WithCause(err)
 			}
 
 			// Expect closing parenthesis
@@ -255,7 +255,7 @@ func (p *Parser) parseComparisonExpression() (ast.Expression, error) {
 					fmt.Sprintf("failed to parse IN value: %v", err),
 					models.Location{Line: 0, Column: 0},
 					"",
-				)
+				).WithCause(err)
 			}
 			values = append(values, value)
 
@@ -334,7 +334,7 @@ func (p *Parser) parseComparisonExpression() (ast.Expression, error) {
 					fmt.Sprintf("failed to parse %s subquery: %v", quantifier, err),
 					models.Location{Line: 0, Column: 0},
 					"",
-				)
+				).WithCause(err)
 			}
 
 			// Expect closing parenthesis
@@ -786,7 +786,7 @@ func (p *Parser) parsePrimaryExpression() (ast.Expression, error) {
 					fmt.Sprintf("failed to parse subquery: %v", err),
 					models.Location{Line: 0, Column: 0},
 					"",
-				)
+				).WithCause(err)
 			}
 			// Expect closing parenthesis
 			if !p.isType(models.TokenTypeRParen) {
@@ -856,7 +856,7 @@ func (p *Parser) parsePrimaryExpression() (ast.Expression, error) {
 				fmt.Sprintf("failed to parse EXISTS subquery: %v", err),
 				models.Location{Line: 0, Column: 0},
 				"",
-			)
+			).WithCause(err)
 		}
 
 		// Expect closing parenthesis
@@ -887,7 +887,7 @@ func (p *Parser) parsePrimaryExpression() (ast.Expression, error) {
 					fmt.Sprintf("failed to parse NOT EXISTS subquery: %v", err),
 					models.Location{Line: 0, Column: 0},
 					"",
-				)
+				).WithCause(err)
 			}
 
 			if !p.isType(models.TokenTypeRParen) {
@@ -946,7 +946,7 @@ func (p *Parser) parseCaseExpression() (*ast.CaseExpression, error) {
 				fmt.Sprintf("failed to parse CASE value: %v", err),
 				models.Location{Line: 0, Column: 0},
 				"",
-			)
+			).WithCause(err)
 		}
 		caseExpr.Value = value
 	}
@@ -962,7 +962,7 @@ func (p *Parser) parseCaseExpression() (*ast.CaseExpression, error) {
 				fmt.Sprintf("failed to parse WHEN condition: %v", err),
 				models.Location{Line: 0, Column: 0},
 				"",
-			)
+			).WithCause(err)
 		}
 
 		// Expect THEN keyword
@@ -978,7 +978,7 @@ func (p *Parser) parseCaseExpression() (*ast.CaseExpression, error) {
 				fmt.Sprintf("failed to parse THEN result: %v", err),
 				models.Location{Line: 0, Column: 0},
 				"",
-			)
+			).WithCause(err)
 		}
 
 		caseExpr.WhenClauses = append(caseExpr.WhenClauses, ast.WhenClause{
@@ -1006,7 +1006,7 @@ func (p *Parser) parseCaseExpression() (*ast.CaseExpression, error) {
 				fmt.Sprintf("failed to parse ELSE result: %v", err),
 				models.Location{Line: 0, Column: 0},
 				"",
-			)
+			).WithCause(err)
 		}
 		caseExpr.ElseClause = elseResult
 	}
@@ -1305,7 +1305,7 @@ func (p *Parser) parseArrayAccessExpression(arrayExpr ast.Expression) (ast.Expre
 						fmt.Sprintf("failed to parse array slice end: %v", err),
 						p.currentLocation(),
 						"",
-					)
+					).WithCause(err)
 				}
 				endExpr = end
 			}
@@ -1332,7 +1332,7 @@ func (p *Parser) parseArrayAccessExpression(arrayExpr ast.Expression) (ast.Expre
 				fmt.Sprintf("failed to parse array index/slice: %v", err),
 				p.currentLocation(),
 				"",
-			)
+			).WithCause(err)
 		}
 
 		// Check if this is a slice (has colon) or subscript
@@ -1348,7 +1348,7 @@ func (p *Parser) parseArrayAccessExpression(arrayExpr ast.Expression) (ast.Expre
 						fmt.Sprintf("failed to parse array slice end: %v", err),
 						p.currentLocation(),
 						"",
-					)
+					).WithCause(err)
 				}
 				endExpr = end
 			}
